@@ -23,9 +23,9 @@ EQPOOL = [None, 1, True, 1.0, NAN, 'a', 'a'[:], [1], [1], [1.0], (1,), {'k': 1},
           {'a': 1, 'b': 2}, {'b': 1, 'a': 2}, {'b': 2, 'a': 1}, [{'a': 1, 'b': 2}], [{'b': 2, 'a': 1}]]
 NAMES = [('a',), ('b',), ('a', 'b'), ('u',), ('a', 'u'), ('e', 'a')]
 (SET_A, SET_B, SET_U, UNWATCH, TRIGGER_A, SET_SLOT, UPDATE, BATCH_ENTER, DISCARD_ENTER, UPDCTX_ENTER, EXIT, SET_E,
- TRIGGER_E, TRIGGER_AB) = range(14)
+ TRIGGER_E, TRIGGER_AB, UPDATE_AE) = range(15)
 OPNAMES = ['set a', 'set b', 'set u', 'unwatch', 'trigger a', 'set a.softbounds', 'update(a,b)', 'batch enter',
-           'discard enter', 'update-context enter', 'exit innermost context', 'set e', 'trigger e', 'trigger a,b']
+           'discard enter', 'update-context enter', 'exit innermost context', 'set e', 'trigger e', 'trigger a,b', 'update(a,e)']
 
 
 def uidx(v):
@@ -171,6 +171,8 @@ def run(prefix, ops, wcfgs, allowed_ops, act, slot_w=False, dev_check=True, leve
             both(lambda: setattr(p.param.a, 'softbounds', sb), lambda m: m.set_slot('a', 'softbounds', sb))
         elif o == UPDATE:
             both(lambda: p.param.update(a=x, b=x + 1), lambda m: m.update({'a': x, 'b': x + 1}))
+        elif o == UPDATE_AE:      # an Event parameter among the keys of an update
+            both(lambda: p.param.update(a=x, e=True), lambda m: m.update({'a': x, 'e': True}))
         elif o == SET_E:
             both(lambda: setattr(p, 'e', True), lambda m: m.set('e', True))
         elif o == BATCH_ENTER:
